@@ -184,6 +184,23 @@ pub fn run(case: &Value) -> Value {
                 Err(e) => json!({"ok": false, "doc_err": format!("{:?}", e)}),
             }
         }
+        "attr_inuse" => {
+            // p.set_attribute_node(an attribute that belongs to <g>): must be refused and change nothing
+            use xml_dom::{Document, Element, ElementMut, Node};
+            match xml_dom::XmlDocument::from_raw(input) {
+                Ok((_, doc)) => {
+                    let top = doc.document_element().unwrap();
+                    let p = match top.child_nodes().iter().next() { Some(xml_dom::XmlNode::Element(e)) => e, _ => return json!({"ok": false, "err": "no element child"}) };
+                    let name = case["name"].as_str().unwrap_or("a0");
+                    let used = match top.get_attribute_node(name) { Some(a) => a, None => return json!({"ok": false, "err": "no such attribute on g"}) };
+                    let before = format!("{}", doc);
+                    let r = p.set_attribute_node(used);
+                    let after = format!("{}", doc);
+                    json!({"ok": r.is_ok(), "err": r.err().map(|e| format!("{:?}", e)), "printed_before": before, "printed_after": after})
+                }
+                Err(e) => json!({"ok": false, "doc_err": format!("{:?}", e)}),
+            }
+        }
         "mutate" => mutate(case),
         "chardata" => chardata(case),
         "create" => create(case),
